@@ -41,11 +41,12 @@ def message(R, prog):
     grow = lambda ev: ev.kind == 'binop' and ev.e['op'] == '+=' and (ev.path(ev.e['l']) or '') == 'this->m_buf_size'
     parse = lambda ev: ev.kind == 'call' and (ev.callee() or '').endswith('::parse_start_line')
     res = an.run(G, [an.GuardTracker(lambda k: True)])
+    CN = K.canon({'size': K.param(G.root, 0), 'pos': (sorted(K.locals_assigned_from_call(G.root, r'::find$')) or [None])[0]})
     K.check_at(R, P + '.K6', G, res, grow,
-               require=lambda st, ev: any(re.match(r'^G:\(this->m_buf_size \+ size\) < this->m_buf_capacity=T$', k) for k in st),
+               require=lambda st, ev: 'G:(this->m_buf_size + size) < this->m_buf_capacity=T' in CN(st) and CN.s(ev.show(ev.e['r'])) == 'size',
                key_fn=lambda ev: P + '.K6:Message::append_bytes:size-within-capacity', describe=lambda ev: 'm_buf_size grows only if size + n < capacity', min_sites=1)
     K.check_at(R, P + '.K6', G, res, parse,
-               require=lambda st, ev: any(re.match(r'^G:(pos|\[.*find\(.*\)\]) == .*npos=F$', k) for k in st) and any(re.match(r'^G:this->message_status == \d+=F$', k) for k in st),
+               require=lambda st, ev: any(re.match(r'^G:(pos|\[.*find\(.*\)\]) == .*npos=F$', k) for k in CN(st)) and any(re.match(r'^G:this->message_status == \d+=F$', k) for k in st),
                key_fn=lambda ev: P + '.K6:Message::append_bytes:parse-once-after-terminator',
                describe=lambda ev: 'the header is parsed only after CRLFCRLF was found and only if not already parsed', min_sites=1)
     G = K.build(R, prog, M + 'Message::send_header')
@@ -62,10 +63,13 @@ def message(R, prog):
             sh = fm.show(e['args'][1])
             if a is not None and not (a['k'] == 'lit' or (a['k'] == 'construct' and 'lit' in [(fm.x(fm.skip(x)) or {}).get('k') for x in a.get('args', [])])):
                 sources.append(sh)
+    CM = K.canon({'v': K.param(fm, 0)})
+    sources = [CM.s(x) for x in sources]
     var_sources = sorted(set(re.sub(r'^.*?(verbstr\[v\]|host_port\(\)|target\(\)).*$', r'\1', s) for s in sources if re.search(r'verbstr\[v\]|host_port\(\)|target\(\)', s)))
     G = K.build(R, prog, M + 'Request::reset', sig='Verb')
     f = G.root
     res = an.run(G, [an.GuardTracker(lambda k: True)])
+    CR = K.canon({'v': K.param(f, 0)})
 
     def covers(st, ev):
         for k in st:
@@ -78,6 +82,7 @@ def message(R, prog):
                 vi = f.value_init(d) if dj['kind'] == 'local' else None
                 if vi is not None and vi >= 0 and re.search(r'(?<![\w>\.])%s(?!\w)' % re.escape(dj['name']), bound):
                     bound = bound.replace(dj['name'], expand(f, vi))
+            bound = CR.s(bound)
             need = {'verbstr[v]': 'verbstr[v]' in bound, 'target()': 'target()' in bound,
                     'host_port()': ('host_port()' in bound or 'full_url_size' in bound)}
             if all(need[s] for s in var_sources):
@@ -90,8 +95,9 @@ def message(R, prog):
         R.broken.append('C13.K6: make_request_line no longer appends verb/host/target through buf_append (found %s)' % var_sources)
     G = K.build(R, prog, M + 'Response::set_result')
     res = an.run(G, [an.GuardTracker(lambda k: True)])
-    K.check_at(R, P + '.K6', G, res, lambda ev: ev.kind == 'call' and ev.callee() == M + 'buf_append' and 'reason' in ev.show(),
-               require=lambda st, ev: any(re.match(r'^G:this->m_buf_capacity <= \(.*reason.*\)=F$', k) or re.match(r'^G:this->m_buf_capacity <= .*reason.*=F$', k) for k in st),
+    reason = K.param(G.root, 1)                # (code, reason)
+    K.check_at(R, P + '.K6', G, res, lambda ev: ev.kind == 'call' and ev.callee() == M + 'buf_append' and (ev.arg_path(1) or ev.arg_show(1)) == reason,
+               require=lambda st, ev: any(re.match(r'^G:this->m_buf_capacity <= \(?%s\.size\(\) \+ \d+\)?=F$' % re.escape(reason), k) for k in st),
                key_fn=lambda ev: P + '.K6:Response::set_result:status-line-within-capacity',
                describe=lambda ev: 'the reason phrase is appended only after a capacity test that includes its size', min_sites=1, what='buf_append(reason)')
     G = K.build(R, prog, M + 'Message::prepare_body_read_stream')
@@ -107,29 +113,37 @@ def headers(R, prog):
     for fn, nraw in (('insert', 4), ('value_append', 2)):
         G = K.build(R, prog, H + fn)
         res = an.run(G, [an.GuardTracker(lambda k: True)])
+        f = G.root
+        # new_size = the local that is finally stored into m_buf_size (the text size after the append)
+        news = set(f.decls[(f.x(f.skip(e['r'])) or {}).get('decl', -1)]['name'] for e in f.exprs if e['k'] == 'binop' and e['op'] == '=' and
+                   (f.path(e['l']) or '') == 'this->m_buf_size' and (f.x(f.skip(e['r'])) or {}).get('k') == 'ref')
+        CN = K.canon(dict({'new_size': K.one(news, 'new text size local', f), 'value': K.param(f, 1 if fn == 'insert' else 0)}, **({'key': K.param(f, 0)} if fn == 'insert' else {})))
         K.check_at(R, P + '.K6', G, res, lambda ev: ev.kind == 'call' and ev.callee() == M + 'buf_append',
-                   require=lambda st, ev: any(re.match(r'^G:\(new_size \+ .*sizeof.*\) <= this->m_buf_capacity=T$', k) or re.match(r'^G:\(new_size \+ .*\) <= this->m_buf_capacity=T$', k) for k in st),
+                   require=lambda st, ev, CN=CN: any(re.match(r'^G:\(new_size \+ .*sizeof.*\) <= this->m_buf_capacity=T$', k) or re.match(r'^G:\(new_size \+ .*\) <= this->m_buf_capacity=T$', k) for k in CN(st)),
                    key_fn=lambda ev, fn=fn: '%s.K6:HeadersBase::%s:append-within-capacity' % (P, fn),
                    describe=lambda ev: 'bytes are appended only if text + index still fit the capacity', min_sites=nraw, what='buf_append')
-        f = G.root
-        ns = [expand(f, f.value_init(d)) for d, dj in enumerate(f.decls) if dj['name'] == 'new_size' and f.value_init(d) is not None]
+        ns = [CN.s(expand(f, f.value_init(d))) for d, dj in enumerate(f.decls) if CN.s(dj['name']) == 'new_size' and f.value_init(d) is not None]
         ok = bool(ns) and 'value.size()' in ns[0] and 'm_buf_size' in ns[0] and (fn != 'insert' or 'key.size()' in ns[0])
         (R.held if ok else R.violated)(P + '.K11', '%s.K11:HeadersBase::%s:bound-over-what-is-written' % (P, fn), f.id, '%s:%d' % (f.file, f.line),
                                         'new_size = %s' % (ns[0] if ns else '?'))
     for fn in ('kv_add', 'kv_add_sort'):
         G = K.build(R, prog, H + fn)
         res = an.run(G, [an.GuardTracker(lambda k: True)])
-        wr = lambda ev: (ev.kind == 'call' and ev.callee() == 'memmove') or \
-            ((ev.kind == 'binop' or (ev.kind == 'call' and ev.e.get('op') == '=')) and re.search(r'\(\w+ - 1\)', ev.show()) and '= kv' in ev.show().replace('(', ' ').replace(')', ' ')) or \
+        CN = K.canon({'kv': K.param(G.root, 0), 'begin': K.one(K.locals_assigned_from_call(G.root, r'::kv_begin$'), 'index start local', G.root)})
+        wr = lambda ev, CN=CN: (ev.kind == 'call' and ev.callee() == 'memmove') or \
+            ((ev.kind == 'binop' or (ev.kind == 'call' and ev.e.get('op') == '=')) and re.search(r'\(\w+ - 1\)', ev.show()) and '= kv' in CN.s(ev.show()).replace('(', ' ').replace(')', ' ')) or \
             (ev.kind == 'unop' and ev.e['op'] == '++' and (ev.path(ev.e['sub']) or '').endswith('m_kv_size'))
         K.check_at(R, P + '.K6', G, res, wr,
-                   require=lambda st, ev: any(re.match(r'^G:\(begin - 1\) <= \(this->m_buf \+ this->m_buf_size\)=F$', k) for k in st),
+                   require=lambda st, ev, CN=CN: 'G:(begin - 1) <= (this->m_buf + this->m_buf_size)=F' in CN(st),
                    key_fn=lambda ev, fn=fn: '%s.K6:HeadersBase::%s:index-grows-only-above-text' % (P, fn),
                    describe=lambda ev: 'the index (growing downwards) takes a slot only if it stays above the header text', min_sites=2, what='index write')
     G = K.build(R, prog, H + 'reset_host')
     res = an.run(G, [an.GuardTracker(lambda k: True)])
+    f = G.root
+    host = K.param(f, 1)                        # (delta, host)
+    CN = K.canon({'delta': K.param(f, 0), 'inner_delta': K.one(K.locals_defined_only_by(f, r'^\(%s\.size\(\) - .*\.size\(\)\)$' % re.escape(host)), 'growth of the Host value', f)})
     K.check_at(R, P + '.K6', G, res, lambda ev: ev.kind == 'call' and ev.callee() in ('memmove', M + 'buf_append'),
-               require=lambda st, ev: any(re.match(r'^G:this->space_remain\(\) < \(delta \+ inner_delta\)=F$', k) for k in st),
+               require=lambda st, ev: 'G:this->space_remain() < (delta + inner_delta)=F' in CN(st),
                key_fn=lambda ev: P + '.K6:HeadersBase::reset_host:move-within-space', describe=lambda ev: 'header text is moved/rewritten only if the growth fits the remaining space', min_sites=2)
 
 
